@@ -1234,6 +1234,12 @@ func (e *EvalEnv) call(x *ast.CallExpr) (Val, error) {
 		expected := e.Old.Clone()
 		for _, a := range x.Args {
 			if ce, ok := a.(*ast.CallExpr); ok {
+				if fid, ok := ce.Fun.(*ast.Ident); ok && fid.Name == "anybytes" && len(ce.Args) == 0 {
+					// anybytes(): any octet of any byte array may change (everything else must not)
+					r, hs := e.X.elemRegion(types.Typ[types.Uint8])
+					e.X.heapSet(expected, r, e.X.heapGet(e.St, r, hs))
+					continue
+				}
 				if fid, ok := ce.Fun.(*ast.Ident); ok && fid.Name == "elems" && len(ce.Args) == 1 {
 					// elems(s): every element of the backing array of slice s (evaluated in the pre-state) may change
 					prev := e.InOld
